@@ -87,6 +87,7 @@ bool ops_c13(Ctx &c, Toks const &t);
 bool ops_c09(Ctx &c, Toks const &t);
 bool ops_c10(Ctx &c, Toks const &t);
 bool ops_c16(Ctx &c, Toks const &t);
+bool ops_c01(Ctx &c, Toks const &t);
 bool ops_c14(Ctx &c, Toks const &t);
 
 #endif
